@@ -103,6 +103,12 @@ def check(ctx, case, reqs, pend):
                 if excluded:
                     ctx.hit("excluded_valid_count_plain_propagate")
                     continue
+                if ret[0] == "plain" and nan_m.any() and not np.all(v[nan_m] == ret[1]):
+                    # the plain replacement value is the only way this format has of saying "missing"
+                    bad = tuple(int(x) for x in np.argwhere(nan_m & (v != ret[1]))[0])
+                    ctx.oracle_fail("%s.%s: cell %s is missing in the NaN and (sentinel, False) formats but holds %r, not the "
+                                    "replacement value %r, in the plain format" % (kind, func, bad, v[bad], ret[1]), desc, cls="C04-formats")
+                    continue
                 off = ~nan_m
                 if not np.array_equal(v[off], nan_v[off]):
                     ctx.oracle_fail("%s.%s: values differ between format %s and the NaN format off the missing cells" % (
